@@ -4,12 +4,27 @@ values, error-vs-value and the tick trace of procedure arguments (once per eleme
 on Python lists."""
 import json
 from . import core, diff
-from .sx import S, Sym, Char, Dot, Vec, show, q, skeleton
+from fractions import Fraction
+from .sx import S, Sym, Char, Dot, Vec, Real, show, q, skeleton
 from .ref_scheme import Machine, Strategy, SErr, OutOfModel
 
 PID = "C11"
 LEVEL = "exploration"
 CXR = ["caar", "cadr", "cdar", "cddr", "caaar", "caadr", "cadar", "caddr", "cdaar", "cdadr", "cddar", "cdddr"]
+
+
+# numbers that are "the same" under a sloppy comparison: equal value but different exactness, or different ratios with equal numerator*denominator
+TWINS = [[2, Real.of(2.0)], [Fraction(1, 2), Real.of(0.5)], [Fraction(2, 3), Fraction(3, 2), Fraction(1, 6), 6], [Fraction(4, 3), Fraction(3, 4), Fraction(1, 12), 12],
+         [0, Real.of(0.0)], [Fraction(-2, 3), Fraction(-3, 2)], [Real.of(1.5), Fraction(3, 2)], [1, Real.of(1.0)], [Fraction(-1, 2), Fraction(1, 2)]]
+
+
+def twin_of(x, rng):
+    fam = [f for f in TWINS if any(type(y) == type(x) and (y.bits == x.bits if isinstance(y, Real) else y == x) for y in f)]
+    if not fam:
+        return None
+    f = rng.choice(fam)
+    others = [y for y in f if not (type(y) == type(x) and (y.bits == x.bits if isinstance(y, Real) else y == x))]
+    return rng.choice(others) if others else None
 
 
 class Gen:
@@ -19,6 +34,8 @@ class Gen:
 
     def atom(self):
         r = self.rng
+        if r.random() < 0.12:
+            return r.choice(r.choice(TWINS))
         return r.choice([r.randint(-3, 9), r.randint(-3, 9), S(r.choice("abcxyz")), r.random() < 0.5, Char(r.choice("abc")), r.choice(["s", "t", ""])])
 
     def datum(self, depth, maxlen=12, improper=0.0):
@@ -104,6 +121,11 @@ class Gen:
         if p in ("memq", "memv"):
             l = [r.choice([1, 2, 3, S("a"), S("b"), True, False, Char("a")]) for _ in range(r.randint(0, 8))]
             x = r.choice(l) if l and r.random() < 0.7 else r.choice([9, S("z"), False])
+            if p == "memv" and r.random() < 0.35:
+                # numbers: memv compares exactness and value; the list holds twins of the key in front of it
+                fam = r.choice(TWINS)
+                x = r.choice(fam)
+                l = [r.choice(fam + [S("a"), 5]) for _ in range(r.randint(0, 6))]
             return [S(p), q(x), q(l)]
         if p == "equal?":
             a = self.datum(3, improper=0.2)
@@ -129,6 +151,10 @@ class Gen:
             return c
         if isinstance(d, Dot):
             return Dot(d.items, self.atom()) if r.random() < 0.5 else list(d.items)
+        if isinstance(d, (int, Fraction, Real)) and not isinstance(d, bool):
+            t = twin_of(d, r)
+            if t is not None and r.random() < 0.7:
+                return t
         return self.atom()
 
     def compose(self, depth):
